@@ -221,14 +221,17 @@ class frame_keypress:
         if not W.call_quiet(cur(), w, "selectable", {}):
             yield "not-offered-to-an-unselectable-part", both(len(kp) == 0, opt_same(result, a.key))
             return
-        # FAILS-ON-TREE (same root cause as the size clause below): Frame(body, footer=GridFlow([], 3, 1, 0, 'left')) at
-        #   (5, 1): render draws the body on the one row, keypress((5, 1), k) returns k without offering it to the body
-        yield "offered-once", len(kp) == 1
+        # A part that is not None but falsy (an empty container: `Pile([])`, `GridFlow([], ...)`) is skipped by
+        # frame_top_bottom (`if self.header:`) yet counted by keypress (`is not None`); the two clauses below are split
+        # on that case so that the ordinary case is discharged on its own.
+        # FAILS-ON-TREE (both /falsy-part clauses, one root cause):
+        #   Frame(body, header=GridFlow([], 3, 1, 0, 'left')): render((5, 4)) draws the body at (5, 4), keypress((5, 4), k)
+        #   offers k to the body with size (5, 3);  Frame(body, footer=GridFlow([], 3, 1, 0, 'left')): render((5, 1)) draws the
+        #   body on the one row, keypress((5, 1), k) returns k without offering it
+        odd = "/falsy-part" if either(*[both(neg(is_none(part_widget(old, p))), neg(has_part(old, p))) for p in ("header", "footer")]) else ""
+        yield "offered-once" + odd, len(kp) == 1
         if kp:
-            # FAILS-ON-TREE (body focus, header not None but falsy): Frame(body, header=GridFlow([], 3, 1, 0, 'left')):
-            #   render((5, 4)) draws the body at (5, 4) (frame_top_bottom skips a falsy header), keypress((5, 4), k) offers
-            #   the key with (5, 3) (keypress tests `is not None` and subtracts the header's rows() == 1)
-            yield "with-the-size-render-uses", eq(kp[0][3]["size"], part_size(fp, a.size, htrim, ftrim))
+            yield "with-the-size-render-uses" + odd, eq(kp[0][3]["size"], part_size(fp, a.size, htrim, ftrim))
             yield "the-key-itself", eq(kp[0][3]["key"], a.key)
             yield "result-is-the-parts", opt_same(result, kp[0][4])
         yield "focus-unchanged", eq(s.focus_part, old.focus_part)
